@@ -80,8 +80,8 @@ type runner struct {
 	blocked int // index of the one goroutine allowed to sit blocked, -1 = none
 	pending []sched.Event
 	lazy    bool
-	inside  []bool // the goroutine has passed an "inside" point (it holds its lock)
-	atMid   []bool // the goroutine is parked at a "mid" point (it may hold a store-level lock there)
+	inside  []bool       // the goroutine has passed an "inside" point (it holds its lock)
+	atMid   []bool       // the goroutine is parked at a "mid" point (it may hold a store-level lock there)
 	workIdx []int        // index of the already logged `work` line of a goroutine that has released its lock (-1 = none)
 	soft    map[int]bool // goroutines that did not report after being let go while another one was parked at a mid point
 }
